@@ -801,6 +801,11 @@ func (vfs *OrefaFS) Rename(oldname, newname string) error {
 		return &os.LinkError{Op: op, Old: oldname, New: newname, Err: vfs.err.NotADirectory}
 	}
 
+	if oChild.mode.IsDir() && strings.HasPrefix(nAbsPath, oAbsPath+string(vfs.PathSeparator())) {
+		// a directory can't be moved into itself or one of its subdirectories.
+		return &os.LinkError{Op: op, Old: oldname, New: newname, Err: vfs.err.InvalidArgument}
+	}
+
 	if (oChild.mode.IsDir() && nChildOk) || (!oChild.mode.IsDir() && nChildOk && nChild.mode.IsDir()) {
 		err := vfs.err.FileExists
 		if vfs.OSType() == avfs.OsWindows {
